@@ -227,12 +227,21 @@ Module Sparql.
         while current != '}' { if Eof -> Err; patterns.push(parse_graph_pattern_element()?) }
       and [parse_graph_pattern_element]'s last arm [_ => parse_triples_block()] returns
       [Ok(vec![])] without consuming when the current token cannot start a triple. *)
-  Definition group_loop (name : string) : loop :=
+  Definition group_loop_pre (name : string) : loop :=
     mkloop name (GOut [RBRACE])
       [(EOF, FErr); (LBRACE, FConsume); (TSTART, FConsume); (KW, FConsume); (OTHER, FStall)] FStall.
+  Definition group_loops_pre : list loop := [
+    group_loop_pre "parse_group_graph_pattern (l.616)";
+    group_loop_pre "parse_group_or_subquery (l.723)"
+  ].
+  (** after f74955f the default arm rejects a token that cannot start a triple (and the loops skip one
+      optional '.' after an element): no kind stalls any more *)
+  Definition group_loop (name : string) : loop :=
+    mkloop name (GOut [RBRACE])
+      [(EOF, FErr); (LBRACE, FConsume); (TSTART, FConsume); (KW, FConsume); (OTHER, FErr)] FErr.
   Definition group_loops : list loop := [
-    group_loop "parse_group_graph_pattern (l.616)";
-    group_loop "parse_group_or_subquery (l.723)"
+    group_loop "parse_group_graph_pattern";
+    group_loop "parse_group_or_subquery"
   ].
   (** the other loops of the parser, over their own guard kinds *)
   Definition PREFIX := 1. Definition K2 := 2. Definition COMMA := 3. Definition PIPE := 4. Definition SLASH := 5.
@@ -304,7 +313,12 @@ Definition nested (n : nat) : list btok := repeat BOpen n ++ [BAtom] ++ repeat B
 Definition rec_depth (ts : list btok) : option nat :=
   match descend (S (List.length ts)) None 0 ts with Some (m, []) => Some m | _ => None end.
 
-(** finding class C12-K3: the depth at which the harness builds a nest is at least the depth up to
-    which every construct is exercised in-process on every run *)
+(** the limit of the five parsers after 1e699be *)
+Definition MAX_NESTING_DEPTH : nat := 128.
+Definition rec_depth_cur (ts : list btok) : option nat :=
+  match descend (S (List.length ts)) (Some MAX_NESTING_DEPTH) 0 ts with Some (m, []) => Some m | _ => None end.
+
+(** finding class C12-K9 (what is left of C12-K3 after 1e699be): a CHAIN of binary operators longer than the
+    length every run exercises in full; nesting constructs are excused no longer *)
 Definition safe_depth (chain : bool) : Z := if chain then 4000 else 128.
-Definition k_deep_nesting (chain : bool) (depth : Z) : bool := safe_depth chain <? depth.
+Definition k_deep_nesting (chain : bool) (depth : Z) : bool := chain && (safe_depth chain <? depth).
